@@ -131,8 +131,14 @@ func (c *conn) Read(p []byte) (int, error) {
 			n = (remain + 1) / 2
 		case "bytes":
 			n = 1
-			if len(c.wire)-c.bodyStart > 8192 {
-				n = 1 + c.rng.Intn(64) // single-byte reads of a large body cost too many steps
+			if l := len(c.wire) - c.bodyStart; l > 8192 {
+				// single-byte reads of a large body cost too many steps: a few
+				// thousand short reads whatever the size
+				m := 64
+				if l/2048 > m {
+					m = l / 2048
+				}
+				n = 1 + c.rng.Intn(m)
 			}
 		case "random":
 			switch c.rng.Intn(4) {
@@ -165,6 +171,7 @@ func (c *conn) Read(p []byte) (int, error) {
 	}
 	copy(p, c.wire[c.pos:c.pos+n])
 	c.pos += n
+	simrt.Progress()
 	if c.pos >= limit && !c.dead && c.req.EOFWithData {
 		return n, io.EOF
 	}
@@ -255,6 +262,7 @@ func (w *respWriter) Write(p []byte) (int, error) {
 			w.body.Write(p[off:end])
 		}
 		w.written += len(p)
+		simrt.Progress()
 		return len(p), nil
 	}
 	w.body.Write(p)
